@@ -2396,6 +2396,9 @@ DLLIMPORT int cfg_addlist(cfg_t *cfg, const char *name, unsigned int nvalues, ..
 		return CFG_FAIL;
 	}
 
+	/* like '+=' in a file: append to the default values, too */
+	opt->flags &= ~CFGF_RESET;
+
 	va_start(ap, nvalues);
 	cfg_addlist_internal(opt, nvalues, ap);
 	va_end(ap);
